@@ -2,6 +2,7 @@
   C15 — LRU and size-bounded LRU caches refine the reference LRU, flags and handlers too.
 -/
 import SV.LRU.Proofs
+import SV.GenProofs
 namespace SV.Props.C15
 open SV SV.LRU
 
@@ -60,5 +61,9 @@ theorem legacy_F11 : ∃ (c : Cap) (k v : Bytes) (size : Int) (e : Entry),
     let r := c.addSizedAndReturnEvicted Variant.legacy k v size
     e ∈ c.entries ∧ e.key ≠ k ∧ e ∉ r.1.entries ∧ e ∉ r.2 ∧ (c.addSized Variant.legacy k v size).2 = false :=
   legacy_silent_eviction_counterexample
+
+/-! ### tie by translation: the source's own leaf logic (regenerated into SV/Generated/Funcs.lean on every run) IS the model's -/
+theorem source_eviction_test_is_the_models (c : Cap) :
+    c.shouldEvict = Gen.lruShouldEvict c.entries.length c.cap c.bytes c.maxBytes := GenProofs.lruShouldEvict_eq c
 
 end SV.Props.C15
